@@ -33,7 +33,9 @@ class RandomSource(abc.ABC):
         for choice, acc in zip(choices, acc_weights):
             if rand_value < acc:
                 return choice
-        return choices[0]
+        # Only reached when every weight is below the resolution of the integer scale: still never
+        # hand out an option whose weight is zero while another one has a positive weight.
+        return next((choice for choice, weight in zip(choices, weights) if weight > 0), choices[0])
 
     def shuffle(self, lst: list[T]):
         for i in reversed(range(1, len(lst))):
